@@ -34,7 +34,18 @@ func VerifC06AddStep() {
 	n := vf.NondetIntRange("tracks", 1, vf.Param("C06.maxTracks", 8))
 	ts, base, g := verifTrackState(n)
 	d := vf.NondetUint32("delta")
-	op := NewTrackOp(d, nil, nil)
+	// the op's kind must not matter for the bookkeeping: meta, fixed-track and note ops alike
+	var typ OpType
+	var fn OpFunc
+	switch vf.NondetIntRange("kind", 0, 3) {
+	case 1:
+		typ, fn = NewMetaTrack(), &MetaTempo{BPM: 120}
+	case 2:
+		typ, fn = NewFixedTrack(vf.NondetIntRange("no", 0, 3)), &NoteOn{Key: 60, Velocity: 64}
+	case 3:
+		typ, fn = NewMetaTrack(), &Close{}
+	}
+	op := NewTrackOp(d, typ, fn)
 	j := vf.NondetIntRange("track", 0, n-1)
 	ts.Add(j, op)
 	for i := 0; i < n; i++ {
